@@ -296,55 +296,59 @@ def main(argv):
     scenario = [{"op": "set", "k": "a", "v": b"1", "nr": False}, {"op": "get", "k": "a"}, {"op": "get_many", "ks": ["a", "b"]}, {"op": "delete", "k": "a", "nr": False}]
     cfgs2 = [c for c in cfgs if (c["ct"], c["iot"]) == (1.5, 2.5)]
     cfgs2 += [dict(c, ign=True) for c in cfgs2 if not c["keepalive"]]
-    for cfg in cfgs2:
-        # dry run to count API occurrences
-        def fresh():
-            srv = RefServer()
-            world = World(server=lambda conn, data: [srv.feed(conn.id, data)])
-            sm = FakeSocketModule(world)
-            return world, mk_client(Client, world, sm, cfg)
-        world, client = fresh()
-        for c in scenario:
-            run_call(client, c)
-        occ = dict(world.api_count)
-        points = [(api, k) for api, n in occ.items() for k in range(n) if api != "getaddrinfo" or True]
-        combos = [(p,) for p in points]
-        if ctx.thorough:
-            combos += list(itertools.combinations(points, 2))
-        for combo in combos:
-            for kind in (kinds if len(combo) == 1 else kinds[:2]):
-                world, client = fresh()
-                world.arm({p: mk_exc(kind) for p in combo})
-                res = []
-                for n, c in enumerate(scenario):
-                    world.tag = n
-                    nled = len(world.ledger)
-                    res.append(run_call(client, c))
-                    case = {"cfg": cfg, "faults": [list(p) for p in combo], "kind": kind, "results": res, "tags": []}
-                    if not audit(ctx, world, client, case, f"after call {n}"):
-                        break
-                    # a socket on which a send/receive/connect-phase call failed must be closed and given up, whether or not the error was swallowed
-                    hit = {e[1] for e in world.ledger[nled:] if e[0] == "fault" and e[1] is not None and e[2][0] != "close"}
-                    bad = [cid for cid in hit if not world.conns[cid].closed or getattr(client.sock, "id", None) == cid]
-                    if bad:
-                        ctx.violation("a socket on which a call failed was not closed / is still attached to the client", dict(case, sockets=bad), tags=["failed-socket-kept"])
-                        break
-                    if res[-1].startswith("exc:") and client.sock is not None and res[-1] not in ("exc:IllegalInput",):
-                        ctx.violation("a failed call left a socket attached to the client", case)
-                        break
-                ctx.case((tuple(cfg.items()), combo, kind), sample=None)
-                ctx.count("scenario-fault-plans")
-                for cid, api, tmo in world.io_timeouts:
-                    if tmo != cfg["iot"]:
-                        ctx.violation(f"{api} performed with timeout {tmo!r} in force instead of the configured I/O timeout {cfg['iot']!r}", case, tags=["io-timeout"])
-                        break
-                # after the faults are consumed a further call must work on a fresh or healthy connection
-                world.arm({})
-                world.tag = 99
-                r = run_call(client, {"op": "set", "k": "z", "v": b"z", "nr": False})
-                if r != "True":
-                    ctx.violation("client not usable after the fault plan was exhausted", dict(case, final=r))
-                audit(ctx, world, client, case, "at the end")
+    # the second scenario is made of the reply-less forms (nothing is read back: the only socket calls that can fail are the connect phase and sendall)
+    scenario_replyless = [{"op": "set", "k": "a", "v": b"1", "nr": True}, {"op": "delete", "k": "a", "nr": True}, {"op": "touch", "k": "a", "e": 5, "nr": True},
+                          {"op": "incr", "k": "n", "d": 1, "nr": True}, {"op": "delete_many", "ks": ["a", "b"], "nr": True}, {"op": "flush_all", "d": 0, "nr": True}]
+    for scenario in (scenario, scenario_replyless):
+        for cfg in cfgs2:
+            # dry run to count API occurrences
+            def fresh():
+                srv = RefServer()
+                world = World(server=lambda conn, data: [srv.feed(conn.id, data)])
+                sm = FakeSocketModule(world)
+                return world, mk_client(Client, world, sm, cfg)
+            world, client = fresh()
+            for c in scenario:
+                run_call(client, c)
+            occ = dict(world.api_count)
+            points = [(api, k) for api, n in occ.items() for k in range(n) if api != "getaddrinfo" or True]
+            combos = [(p,) for p in points]
+            if ctx.thorough:
+                combos += list(itertools.combinations(points, 2))
+            for combo in combos:
+                for kind in (kinds if len(combo) == 1 else kinds[:2]):
+                    world, client = fresh()
+                    world.arm({p: mk_exc(kind) for p in combo})
+                    res = []
+                    for n, c in enumerate(scenario):
+                        world.tag = n
+                        nled = len(world.ledger)
+                        res.append(run_call(client, c))
+                        case = {"cfg": cfg, "faults": [list(p) for p in combo], "kind": kind, "results": res, "tags": []}
+                        if not audit(ctx, world, client, case, f"after call {n}"):
+                            break
+                        # a socket on which a send/receive/connect-phase call failed must be closed and given up, whether or not the error was swallowed
+                        hit = {e[1] for e in world.ledger[nled:] if e[0] == "fault" and e[1] is not None and e[2][0] != "close"}
+                        bad = [cid for cid in hit if not world.conns[cid].closed or getattr(client.sock, "id", None) == cid]
+                        if bad:
+                            ctx.violation("a socket on which a call failed was not closed / is still attached to the client", dict(case, sockets=bad), tags=["failed-socket-kept"])
+                            break
+                        if res[-1].startswith("exc:") and client.sock is not None and res[-1] not in ("exc:IllegalInput",):
+                            ctx.violation("a failed call left a socket attached to the client", case)
+                            break
+                    ctx.case((scenario[1]["op"], tuple(cfg.items()), combo, kind), sample=None)
+                    ctx.count("scenario-fault-plans")
+                    for cid, api, tmo in world.io_timeouts:
+                        if tmo != cfg["iot"]:
+                            ctx.violation(f"{api} performed with timeout {tmo!r} in force instead of the configured I/O timeout {cfg['iot']!r}", case, tags=["io-timeout"])
+                            break
+                    # after the faults are consumed a further call must work on a fresh or healthy connection
+                    world.arm({})
+                    world.tag = 99
+                    r = run_call(client, {"op": "set", "k": "z", "v": b"z", "nr": False})
+                    if r != "True":
+                        ctx.violation("client not usable after the fault plan was exhausted", dict(case, final=r))
+                    audit(ctx, world, client, case, "at the end")
     # ---- part 3: calls that fail because of what the server ANSWERED (error lines, garbage, truncated replies), on pipelined commands whose
     #      remaining replies arrive later: whatever the client does with the connection, the next calls work ----
     from faultrun import MUTATIONS, Scripted
